@@ -89,13 +89,23 @@ def run(ctx):
         rest = [x for x in allb if not _twin(x)]
         rnd.shuffle(rest)
         rnd.shuffle(twins)
-        keep = twins[:40 if q else 400] + rest[:60 if q else 900]
+        keep = twins[:40 if q else 400] + rest[:40 if q else 900]
         ctx.extra['replayed_exhaustive_histories'] = len(keep)
         half = len(keep) // 2
         ctx.replay(b, keep[:half], opts=dict(twin='sig', via='process'), par=6, timeout=14400)
         ctx.replay(b, keep[half:], opts=dict(twin='key', via='msg', salt=1), par=6, timeout=14400)
+        # --- exhaustive histories around the TxHeight window: a window transaction and a filler, 4 events, single-transaction blocks
+        allh = ctx.tlc_genall('ChainTx_All', 'ChainTx_AllH.cfg', stage=d, timeout=3600)
+        ctx.extra['exhaustive_histories_txheight_window'] = len(allh)
+        twice = [x for x in allh if sum(1 for s in x['steps'] if s.get('op') in ('Extend', 'Fork') and s['txs'] == [[1, 'g']]) >= 2]
+        other = [x for x in allh if x not in twice]
+        rnd.shuffle(twice)
+        rnd.shuffle(other)
+        keeph = twice[:70 if q else 390] + other[:20 if q else 300]
+        ctx.extra['replayed_window_histories'] = len(keeph)
+        ctx.replay(b, keeph, opts=dict(twin='sig', salt=5), par=6, timeout=14400)
         # --- simulated histories: 4 ids, 4 profiles, 6 events
-        sims = ctx.tlc_sim('ChainTx_MC', 'ChainTx_Gen.cfg', num=150 if q else 1200, depth=7, stage=d, timeout=3600)
+        sims = ctx.tlc_sim('ChainTx_MC', 'ChainTx_Gen.cfg', num=120 if q else 1200, depth=7, stage=d, timeout=3600)
         third = max(1, len(sims) // 3)
         ctx.replay(b, sims[:2 * third], opts=dict(twin='sig', salt=2), par=6, timeout=14400)
         ctx.replay(b, sims[2 * third:], opts=dict(twin='key', via='msg', salt=3), par=6, timeout=14400)
